@@ -120,7 +120,7 @@ fn surface(c: &Case, d: Dialect, obs: &mut Obs) -> Result<(), Outcome> {
     };
     let s = &c.input;
     chk(engine::is_match(&re, s).map(|_| ()).map_err(|f| ("is_match".to_string(), f)))?;
-    let mut reps: Vec<&str> = REPLS.to_vec();
+    let mut reps: Vec<&str> = if c.aux.as_deref() == Some("lane") { vec!["$1x", "\\$"] } else { REPLS.to_vec() };
     if let Some(r) = &c.repl {
         reps.push(r.as_str());
     }
